@@ -125,26 +125,33 @@ Accept(e, ys, ex2) ==
     LET f == ObsWhy(e, ys, ex2) IN
     IF f # <<>> THEN Reject(e, ex2, f[1], f[2]) ELSE Continue(e, ys, ex2, <<>>)
 
+(* the call has several admissible post-states (insert at pos <= 0): go on from the first one *)
+(* the read-back agrees with; if none does, report against the reference's                   *)
+AcceptAny(e, cs) ==
+    LET fit == {i \in 1..Len(cs) : ObsWhy(e, cs[i].xs, cs[i].ex) = <<>>}
+        c == IF fit = {} THEN cs[1] ELSE cs[CHOOSE i \in fit : \A j \in fit : i <= j]
+    IN Accept(e, c.xs, c.ex)
+
 Step ==
     /\ stop = ""
     /\ pos <= Len(Ev)
     /\ LET e == Ev[pos]
            n == Len(xs)
-           ex2 == PostEx(ex, e)
-       IN IF ~InDomain(xs, ex, e) THEN Halt("ood")             \* the history left the property's domain: not judged
+       IN IF ~InDomain(xs, ex, e) THEN Halt("ood")             \* the history left the specification's domain: not judged
           ELSE IF e.op = "sort"
           THEN IF ~LogFaithful(e.cmp, e.calls, Keys) THEN Halt("sortlog")   \* harness comparator # its definition
                ELSE IF e.rdfrom # 0 \/ Len(e.rd) < n + 3 THEN Halt("window")   \* read-back window too small
                ELSE LET ys == RdList(e, n)
                         w == SortWhy(xs, e.cmp, e.calls, e.out, ys, Keys)
-                    IN IF w # "" THEN Reject(e, ex2, w, [n |-> n])
-                       ELSE IF IsPerm(xs, ys) THEN Accept(e, ys, ex2)
+                    IN IF w # "" THEN Reject(e, ex, w, [n |-> n])
+                       ELSE IF IsPerm(xs, ys) THEN Accept(e, ys, ex)
                        \* an admissible error of a misbehaving lt promises nothing about the contents
-                       ELSE IF RdIsList(e, ex2) THEN Continue(e, RdList(e, RdLen(e)), ex2, <<>>)
+                       ELSE IF RdIsList(e, ex) THEN Continue(e, RdList(e, RdLen(e)), ex, <<>>)
                        ELSE Halt("unspecified-after-sort-error")
-          ELSE IF e.err THEN Reject(e, ex2, "err", [n |-> n])
-          ELSE IF e.res \notin Results(xs, e) THEN Reject(e, ex2, "res", [n |-> n])
-          ELSE Accept(e, Post(xs, e), ex2)
+          ELSE LET cs == Posts(xs, ex, e) IN
+               IF e.err # ExpectErr(e) THEN Reject(e, cs[1].ex, IF e.err THEN "err" ELSE "noerr", [n |-> n])
+               ELSE IF e.res \notin Results(xs, e) THEN Reject(e, cs[1].ex, "res", [n |-> n])
+               ELSE AcceptAny(e, cs)
 
 Spec == Init /\ [][Step]_vars
 
